@@ -291,6 +291,8 @@ class Interp:
                     return self.stubs[key](a, b)
                 if isinstance(a, (int, bool)) and isinstance(b, (int, bool)):
                     return {"<": a < b, "<=": a <= b, ">": a > b, ">=": a >= b}[key]
+                if isinstance(a, frozenset) and isinstance(b, frozenset):
+                    return {"<": a < b, "<=": a <= b, ">": a > b, ">=": a >= b}[key]
             raise AnalysisError(f"interpreter: unsupported comparison {type(op).__name__}")
         if isinstance(e, ast.Call):
             fn = dotted(e.func)
